@@ -42,7 +42,7 @@ MSG_RE = scenario.MSG_RE
 
 
 def plan(tier, seed):
-    n = 60 if tier == "quick" else 2200
+    n = 350 if tier == "quick" else 6000
     return [{"i": i, "seed": seed, "n": 6} for i in range(n)]
 
 
